@@ -64,6 +64,7 @@ pub struct Observer {
     pub max_round_seen: u64,
     pub new_rounds: Vec<u64>,
     pub ext: crate::monitors::Ext,
+    pub trace: Option<Vec<usize>>,
 }
 
 pub enum Decoded {
@@ -110,6 +111,7 @@ impl Observer {
             max_round_seen: 0,
             new_rounds: Vec::new(),
             ext: crate::monitors::Ext::new(n),
+            trace: std::env::var("HSIM_TRACE").ok().map(|v| v.split(',').filter_map(|x| x.parse().ok()).collect()),
         }
     }
 
@@ -160,10 +162,12 @@ impl Observer {
             enc.extend_from_slice(&b.qc.hash.0);
             let bound_id = ident::bytes_digest(&enc);
             let valid = ident::check_block(b, &self.members);
+            self.ext.children.entry(b.qc.hash.clone()).or_default().push(d.clone());
             self.blocks.insert(
                 d.clone(),
                 BlockRec { block: b.clone(), digest: d.clone(), parent: b.qc.hash.clone(), round: b.round, first_seq: seq, valid, bound_id },
             );
+            crate::monitors::on_block_learned(self, &d);
         }
         d
     }
@@ -182,6 +186,21 @@ impl Observer {
         match &ev.kind {
             TapKind::Frame { phase, fidx, data } => {
                 let dec = decode(ev, data);
+                if let Some(f) = self.trace.as_ref() {
+                    if ev.svc == SVC_MEMPOOL && (f.is_empty() || f.iter().any(|x| *x == ev.src() || *x == ev.dst())) {
+                        let what = match &dec {
+                            Decoded::Memp(MempoolMessage::Batch(t)) => format!("Batch {} ({} txs)", ident::short(&ident::bytes_digest(data)), t.len()),
+                            Decoded::Memp(MempoolMessage::BatchRequest(d, _)) => format!("BatchRequest {:?}", d.iter().map(ident::short).collect::<Vec<_>>()),
+                            _ => format!("reply {:?}", String::from_utf8_lossy(data)),
+                        };
+                        eprintln!("TRACE seq={} t={} {}->{} c{}#{} {:?} f{} MEMPOOL {}", ev.seq, ev.t_us, ev.src(), ev.dst(), ev.conn, ev.conn_idx, phase, fidx, what);
+                    }
+                }
+                if let (Some(f), Decoded::Cons(m)) = (self.trace.as_ref(), &dec) {
+                    if f.is_empty() || f.iter().any(|x| *x == ev.src() || *x == ev.dst()) {
+                        eprintln!("TRACE seq={} t={} {}->{} c{}#{} {:?} f{} {:?}", ev.seq, ev.t_us, ev.src(), ev.dst(), ev.conn, ev.conn_idx, phase, fidx, m);
+                    }
+                }
                 if let Decoded::Cons(ConsensusMessage::Propose(b)) = &dec {
                     self.learn_block(b, ev.seq);
                 }
@@ -203,7 +222,14 @@ impl Observer {
                 }
                 crate::monitors::on_frame(self, ev, *phase, *fidx, data, &dec);
             }
-            other => crate::monitors::on_conn_event(self, ev, other),
+            other => {
+                if let Some(f) = self.trace.as_ref() {
+                    if f.is_empty() || f.iter().any(|x| *x == ev.dialer || *x == ev.listener) {
+                        eprintln!("TRACE seq={} t={} conn c{}#{} {}=>{} svc{} {:?}", ev.seq, ev.t_us, ev.conn, ev.conn_idx, ev.dialer, ev.listener, ev.svc, other);
+                    }
+                }
+                crate::monitors::on_conn_event(self, ev, other)
+            }
         }
     }
 
